@@ -61,7 +61,11 @@ Fixpoint p_params (ts : list token) : res (list N * bool * list token) :=
   match ts with
   | TName k :: r =>
     match r with
-    | TComma :: r' => bind (p_params r') (fun x => Ok (k :: fst (fst x), snd (fst x), snd x))
+    | TComma :: r' =>
+      match r' with
+      | TRParen :: _ => Err r'        (* a comma must be followed by a name or '...' *)
+      | _ => bind (p_params r') (fun x => Ok (k :: fst (fst x), snd (fst x), snd x))
+      end
     | _ => Ok ([k], false, r)
     end
   | TEtc :: r => Ok ([], true, r)
@@ -114,6 +118,19 @@ Fixpoint more_attribs (n : nat) (ts : list token) : res (list (N * attrib) * lis
 
 Definition is_var (e : exp) : bool := match e with EName _ | EIndex _ _ => true | _ => false end.
 
+(* Parser.prefixExp's third result: the prefix expression read from [ts] (leaving [rest]) is of the form '(' exp ')'
+   with no suffix — then it is not a variable even if exp is one.  Recomputed here from the token lists: the
+   parenthesised expression ends where the whole prefix expression ends. *)
+Definition bracketed (ts rest : list token) : bool :=
+  match ts with
+  | TLParen :: ts' =>
+    match exp_at ts' with
+    | Ok (_, TRParen :: r2) => Nat.eqb (length r2) (length rest)
+    | _ => false
+    end
+  | _ => false
+  end.
+
 (* for t.Type == token.SgComma { pexp, t = p.PrefixExp(p.Scan()); must be a Var } *)
 Fixpoint more_vars (n : nat) (ts : list token) : res (list exp * list token) :=
   match n with
@@ -122,7 +139,8 @@ Fixpoint more_vars (n : nat) (ts : list token) : res (list exp * list token) :=
     match ts with
     | TComma :: r =>
       bind (prefix_at r) (fun x =>
-        if is_var (fst x) then bind (more_vars n (snd x)) (fun y => Ok (fst x :: fst y, snd y))
+        if is_var (fst x) && negb (bracketed r (snd x))
+        then bind (more_vars n (snd x)) (fun y => Ok (fst x :: fst y, snd y))
         else Err (snd x))
     | _ => Ok ([], ts)
     end
@@ -297,6 +315,7 @@ Definition s_stat (ts : list token) : res (stat * list token) :=
       match fst x with
       | ECall _ _ _ _ => Ok (SCall (fst x), snd x)
       | EName _ | EIndex _ _ =>
+        if bracketed ts (snd x) then Err (snd x) else
         bind (more_vars (S (length ts)) (snd x)) (fun vs =>
           match snd vs with
           | TAssign :: r2 => bind (explist_at r2) (fun es => Ok (SAssign (fst x :: fst vs) (fst es), snd es))
